@@ -430,6 +430,10 @@ pub fn run(tier: Tier) -> i32 {
                 }
             } {
                 "second-exclusion-over-open-relation-forgets-the-first".to_string()
+            } else if k == "cid-not-visible" && m.contains("used in Select") && flat.contains("group {") && flat.contains("(select {") {
+                // a `select` inside the pipeline of a group narrows the relation to its items; the group's own final
+                // Select lists the key again, which the inner Select made invisible
+                "group-key-selected-after-inner-select-dropped-it".to_string()
             } else if k.starts_with("cid-of-another-pipeline-used") && flat.contains("<relation>") {
                 "relation-parameter-used-twice-in-a-function-body".to_string()
             } else if k == "cid-not-visible" && m.contains("Compute.expr") && flat.split("join").skip(1).any(|j| ["lag ", "lead ", "rank ", "row_number ", "sum ", "count ", "min ", "max ", "average ", "first ", "last "].iter().any(|f| j.split(')').next().map(|c| c.contains(&format!("({f}"))).unwrap_or(false) || j.contains(&format!("== ({f}")))) {
